@@ -169,7 +169,7 @@ EXAMPLES = [
 
 
 def run(sh):
-    n = 1500 if sh.tier == 'quick' else 40000
+    n = 1500 if sh.tier == 'quick' else 100000
     if sh.idx == 0:
         for name, line, documented in EXAMPLES:
             E, D0, D = serial.reference(line['stations'], line['horizon'])
